@@ -214,6 +214,7 @@ def run_case(case):
     data = np.asarray(obj.data_view)
     out["cells"] = [[int(v) + 1 for v in idx] for idx in np.argwhere(calc != 0)]     # cell key = polynomial index + 1
     out["nodes"] = [[int(v) for v in idx] for idx in np.argwhere(~np.isnan(data))]
+    out["node_values"] = [float(data[tuple(idx)]) for idx in out["nodes"]]      # normalised samples as stored
     # values at sampling nodes, continuing the same history (more history for the same object)
     nodevals = []
     for pick in case.get("node_picks", []):
